@@ -58,6 +58,7 @@ func ref(algo string, data []byte) string {
 type ev struct {
 	Kind int    `json:"kind"`
 	B    []byte `json:"b"`
+	E    int    `json:"e,omitempty"` // DataErr: which error value the reader fails with (index into injectedErrs)
 }
 
 type scenario struct {
@@ -74,6 +75,11 @@ type scriptReader struct {
 }
 
 var errInjected = errors.New("harness: injected read failure")
+
+// error values a failing reader may return: an opaque one and the ones the I/O error converter knows about
+// (a truncated stream reports io.ErrUnexpectedEOF; a wrapped io.EOF is not the end-of-stream signal of io.Reader)
+var injectedErrs = []error{errInjected, io.ErrUnexpectedEOF, io.ErrClosedPipe, io.ErrNoProgress, fmt.Errorf("harness: wrapped: %w", io.EOF),
+	os.ErrDeadlineExceeded, os.ErrClosed, io.ErrShortBuffer}
 
 func (r *scriptReader) Read(p []byte) (int, error) {
 	for {
@@ -100,7 +106,7 @@ func (r *scriptReader) Read(p []byte) (int, error) {
 			n := copy(p, rest)
 			r.off += n
 			if r.off >= len(e.B) {
-				return n, errInjected
+				return n, injectedErrs[e.E%len(injectedErrs)]
 			}
 			return n, nil
 		default:
@@ -280,6 +286,9 @@ func genScript(r *h.Run, maxLen int, forceOutcome int) []ev {
 	case 1, 2:
 		k := r.Rng.Intn(len(s) + 1)
 		s = append(s[:k:k], ev{Kind: forceOutcome, B: randBytes(r, r.Rng.Intn(9))})
+		if forceOutcome == 1 {
+			s[k].E = r.Rng.Intn(len(injectedErrs))
+		}
 	}
 	return s
 }
@@ -332,6 +341,23 @@ func fileScenarios(r *h.Run) {
 					_ = x
 				}
 			}
+			// files whose reported size is not their length (procfs reports 0): the hash is that of the bytes read
+			if bname == "os" {
+				for _, pf := range []string{"/proc/version", "/proc/sys/kernel/ostype", "/proc/filesystems"} {
+					content, rerr := os.ReadFile(pf)
+					if rerr != nil || len(content) == 0 {
+						continue
+					}
+					r.Eval()
+					r.Count("file-hash:procfs")
+					d, err := fh.CalculateFile(fs, pf)
+					if err != nil {
+						r.Fail("file-hash-error:"+bname, fmt.Sprintf("CalculateFile(%s): %v", pf, err), map[string]any{"algo": algo, "path": pf, "backend": bname})
+					} else if d != ref(algo, content) {
+						r.Fail("file-hash-differs:"+bname+":"+algo, fmt.Sprintf("hash of %s (%d bytes, reported size 0) differs from the hash of its bytes", pf, len(content)), map[string]any{"algo": algo, "path": pf, "backend": bname})
+					}
+				}
+			}
 			// hashing a directory / missing path must fail and must not poison the next calculation
 			if _, err := fh.CalculateFile(fs, filepath.Join(tmp, "missing")); err == nil {
 				r.Fail("file-hash-missing-no-error:"+bname, "CalculateFile on a missing path returned no error", nil)
@@ -353,11 +379,15 @@ func main() {
 	}
 	// corpus: the D1 witness and its variants, every algorithm
 	for _, a := range algos {
-		runScenario(r, scenario{Algo: a, Hist: [][]ev{{{0, []byte("partial")}, {1, nil}}}, Final: []ev{{0, []byte("hello world")}}}, true)
-		runScenario(r, scenario{Algo: a, Hist: [][]ev{{{1, []byte("x")}}}, Final: []ev{{0, []byte("hello")}, {0, nil}, {0, []byte(" world")}}}, true)
-		runScenario(r, scenario{Algo: a, Hist: [][]ev{{{0, []byte("abc")}, {2, []byte("zz")}}}, Final: []ev{{0, []byte("hello world")}}}, true)
-		runScenario(r, scenario{Algo: a, Hist: [][]ev{{{0, []byte("ok")}}, {{0, []byte("abc")}, {1, []byte("d")}}, {{0, []byte("fine")}}}, Final: []ev{{0, []byte("hello world")}}}, true)
+		runScenario(r, scenario{Algo: a, Hist: [][]ev{{{Kind: 0, B: []byte("partial")}, {Kind: 1}}}, Final: []ev{{Kind: 0, B: []byte("hello world")}}}, true)
+		runScenario(r, scenario{Algo: a, Hist: [][]ev{{{Kind: 1, B: []byte("x")}}}, Final: []ev{{Kind: 0, B: []byte("hello")}, {Kind: 0, B: nil}, {Kind: 0, B: []byte(" world")}}}, true)
+		runScenario(r, scenario{Algo: a, Hist: [][]ev{{{Kind: 0, B: []byte("abc")}, {Kind: 2, B: []byte("zz")}}}, Final: []ev{{Kind: 0, B: []byte("hello world")}}}, true)
+		runScenario(r, scenario{Algo: a, Hist: [][]ev{{{Kind: 0, B: []byte("ok")}}, {{Kind: 0, B: []byte("abc")}, {Kind: 1, B: []byte("d")}}, {{Kind: 0, B: []byte("fine")}}}, Final: []ev{{Kind: 0, B: []byte("hello world")}}}, true)
 		runScenario(r, scenario{Algo: a, Hist: nil, Final: nil}, true)
+		// a stream that breaks off midway is a failure whatever error value the reader uses (truncated stream = io.ErrUnexpectedEOF, ...)
+		for e := range injectedErrs {
+			runScenario(r, scenario{Algo: a, Hist: [][]ev{{{Kind: 0, B: []byte("partial ")}, {Kind: 1, B: []byte("da"), E: e}}, {{Kind: 1, E: e}}}, Final: []ev{{Kind: 0, B: []byte("hello world")}}}, e < 2)
+		}
 	}
 	n := r.N(900, 12000)
 	nCases := r.N(700, 3000)
